@@ -9,12 +9,13 @@ from .fm import *
 from .c07 import Scn, HINT, E, carry, replay_scn, observe_claim_state, _ob_l3
 
 
-def _ob_two_users(alice_second, bob_from, until_a):
+def _ob_two_users(alice_second, bob_from, until_a, farms=((4, 12),)):
     def s(I):
-        sc = Scn(I, alice_second=alice_second, bob_from=bob_from)
+        sc = Scn(I, alice_second=alice_second, bob_from=bob_from, farms=farms)
         b = sc.b
         f0 = sc.farms[0]
-        I.assume(smt.Eq(f0['claimed0'], 0))
+        for fx in sc.farms:
+            I.assume(smt.Eq(fx['claimed0'], 0))
         pre = b.snapshot()
         st_a, _ = sc.claim('alice', until_a)
         st_b, _ = sc.claim('bob', None)
@@ -28,15 +29,18 @@ def _ob_two_users(alice_second, bob_from, until_a):
         I.check('later_claim_of_first_user_succeeds', st_a2 == 'ok')
         paid_a = simp(b.get('alice', 'uusd') - pre.get('alice', 'uusd'))
         paid_b = simp(b.get('bob', 'uusd') - pre.get('bob', 'uusd'))
-        n_epochs = min(E, f0['end'] - 1) - f0['start'] + 1
-        I.check('total_paid_within_emission_of_elapsed_epochs', paid_a + paid_b <= f0['rate'] * n_epochs)
+        emitted = sum(fx['rate'] * (min(E, fx['end'] - 1) - fx['start'] + 1) for fx in sc.farms)
+        I.check('total_paid_within_emission_of_elapsed_epochs', paid_a + paid_b <= emitted)
         exp_a, _ = sc.expected('alice', E)
         exp_b, _ = sc.expected('bob', E)
         I.check('each_user_paid_exactly_their_epoch_shares', smt.And(smt.Eq(paid_a, exp_a), smt.Eq(paid_b, exp_b)))
-        f = get_farm(I, 'f-1')
-        if f is not None:
-            I.check('claimed_never_exceeds_budget', f.get('claimed_amount') <= f0['funded'])
-            I.check('claimed_equals_paid', smt.Eq(f.get('claimed_amount'), paid_a + paid_b))
+        booked = 0
+        for fx in sc.farms:
+            f = get_farm(I, fx['id'])
+            if f is not None:
+                I.check('claimed_never_exceeds_budget', f.get('claimed_amount') <= fx['funded'])
+                booked = simp(booked + f.get('claimed_amount'))
+        I.check('claimed_equals_paid', smt.Eq(booked, paid_a + paid_b))
     return s
 
 
@@ -50,6 +54,16 @@ for _sec, _bf, _ua in ((None, 6, None), (8, 6, 7), (None, 9, 4), (8, 3, 5)):
                       % ('' if _sec is None else ' and %s' % _sec, _bf, _ua),
                covers=['done'],
                replay=replay_scn(_sec, None, bob_from=_bf, actions=[('alice', _ua), ('bob', None), ('alice', None)]))(_ob_two_users(_sec, _bf, _ua))
+
+
+for _sec, _bf, _ua in ((None, 6, None), (None, 9, 4)):
+    obligation('C06', 'B1.two_users_two_farms_same_denom_snap%s_bobfrom%s_until%s' % (_sec, _bf, _ua),
+               entries=['execute', 'claim', 'calculate_rewards', 'sync_address_lp_weight_history'], kind='B',
+               statement='as B1 with TWO farms on the LP token paying the same reward denom: every rightful claim succeeds in any order, each user is paid the sum of '
+                         'their epoch shares over both farms, each farm books at most its budget and together exactly what was paid',
+               bounds='current epoch 10, farms [4,12) and [2,9) paying the same denom; weights / rates symbolic', covers=['done'],
+               replay=replay_scn(_sec, None, farms=((4, 12), (2, 9)), bob_from=_bf, actions=[('alice', _ua), ('bob', None), ('alice', None)]))(
+        _ob_two_users(_sec, _bf, _ua, farms=((4, 12), (2, 9))))
 
 
 def _ob_emergency_then_claims(I):
